@@ -143,17 +143,34 @@ def job_searchsorted_real(cfg):
             continue
         idx = int(r.value.a[0].concrete())
         knots, x = h["knots"], h["x"]
+        def bracket_failure(model, what, conds=None):
+            if conds is not None:
+                model = C.robust_model(R, solver, conds, min(timeout, 20)) or model
+            leaves = C.leaf_values(R, model)
+            call = {"K": K, "leaves": leaves}
+            rep = replay_bracket(**call)
+            payload = {"property": PROP, "kernel": "searchsorted", "relation": "bracket", "signature": {"kernel": "searchsorted"}, "leaves": leaves, "what": what, "replay_result": rep, "replay_call": {"fn": "harness.C20:replay_bracket", "args": call}}
+            if rep.get("reproduced"):
+                if not any(v["relation"] == "bracket" for v in jr["violations"]):
+                    jr["violations"].append({"kernel": "searchsorted", "relation": "bracket", "signature": {"kernel": "searchsorted"}, "replay": C.write_replay(PROP, "searchsorted_bracket_K%d" % K, payload), "detail": rep})
+            else:
+                jr["inconclusive"].append({"query": name, "why": what + " (solver model not reproduced on real tensors)", "leaves": leaves, "replay": rep})
+
         if not (0 <= idx <= K - 1):
-            st, _, secs, _ = C.check_sat(R, solver, r.path.condition(), timeout, want_model=False)
+            st, model, secs, _ = C.check_sat(R, solver, r.path.condition(), timeout)
             jr["outcomes"].append({"name": name + "/index-in-range", "kind": "goal", "status": st, "s": round(secs, 3), "expect": "unsat"})
-            if st != "unsat":
-                jr["inconclusive"].append({"query": name, "why": "index %d outside [0,%d] on a feasible path" % (idx, K - 1)})
+            if st == "sat":
+                bracket_failure(model, "index %d outside [0,%d] on a feasible path" % (idx, K - 1), r.path.condition())
+            elif st != "unsat":
+                jr["inconclusive"].append({"query": name, "why": "index %d outside [0,%d]: feasibility %s" % (idx, K - 1, st)})
             continue
         last = idx == K - 1
         goal = tm.and_(tm.le(knots[idx].t, x.t), tm.le(x.t, knots[idx + 1].t) if last else tm.lt(x.t, knots[idx + 1].t))
         o = C.prove(R, solver, name + "/knots[idx]<=x<knots[idx+1]", goal, [r.path.condition()], timeout)
         jr["outcomes"].append(o.as_dict())
-        if o.status != "unsat":
+        if o.status == "sat":
+            bracket_failure(o.model, "x not inside the returned bin %d" % idx, list(r.path.condition()) + [tm.not_(goal)])
+        elif o.status != "unsat":
             jr["inconclusive"].append({"query": o.name, "status": o.status})
         w = C.witness(R, solver, name + "/reach", r.path.condition(), timeout)
         jr["outcomes"].append(w.as_dict())
@@ -164,6 +181,27 @@ def job_searchsorted_real(cfg):
     jr["samples"].append({"kernel": "searchsorted", "K": K, "paths": [r.path.describe()[-2:] for r in results[:3]]})
     solver.close()
     return jr
+
+
+def replay_bracket(K, leaves):
+    """real float64 tensors: knots[idx] <= x < knots[idx+1] (last bin closed) for the returned index."""
+    res = {"reproduced": False}
+    try:
+        ks = [float(leaves.get("k0", 0.0))]
+        for i in range(K):
+            ks.append(ks[-1] + float(leaves.get("g%d" % i, 1.0)))
+        x = float(leaves.get("x", ks[0]))
+        kn = torch.tensor([ks], dtype=torch.float64)
+        idx = int(torchutils.searchsorted(kn, torch.tensor([x], dtype=torch.float64))[0])
+        res.update({"knots": ks, "x": x, "index": idx})
+        if not (0 <= idx <= K - 1):
+            res["reproduced"] = ks[0] <= x <= ks[-1]
+        else:
+            ok = ks[idx] <= x and (x <= ks[idx + 1] if idx == K - 1 else x < ks[idx + 1])
+            res["reproduced"] = (ks[0] <= x <= ks[-1]) and not ok
+    except Exception as e:  # noqa
+        res["exception"] = "%s: %s" % (type(e).__name__, e)
+    return res
 
 
 def job_cbrt(cfg):
